@@ -4,12 +4,27 @@ def chain(profile, qn, tn, ops=80, tops=None, extra=None):
     return {"kind": "chain", "profile": profile, "extra": extra or [],
             "quick": {"n": qn, "ops": ops, "shards": 16}, "thorough": {"n": tn, "ops": tops or ops * 2, "shards": 16}}
 
+def vm(profile, qn, tn, extra=None):
+    """VM engine: harness/cmd/vmrun | lean vmdriver (one generated program per case)"""
+    return {"kind": "vm", "profile": profile, "extra": extra or [],
+            "quick": {"n": qn, "shards": 16}, "thorough": {"n": tn, "shards": 16}}
+
+VM_ENGINES = [vm("ops", 16000, 320000), vm("structured", 16000, 320000), vm("raw", 16000, 320000)]
+VM_TRUST = ["modelled, not verified: Go runtime (big.Int, slices, allocation limits), Burrow acmstate cache/Sync, golang.org/x/crypto/sha3",
+            "the VM engine runs /repo/vm on an in-memory Burrow state with the keeper's storage convention; the keeper, the message path and the SDK gas meter are covered by the chain engine"]
+
 SDK_TRUST = ["modelled, not verified: Cosmos SDK bank/auth/staking/distribution, baseapp transaction atomicity, IAVL, Tendermint"]
 
 GOV = {"engines": [chain("gov", 160, 1600, ops=100)], "trusted": SDK_TRUST + ["the staking module is an observed input of the tally (bonded validators, delegations, bonded total)"],
        "assumptions": ["governance parameters are constant along a history", "shield-claim proposals are exercised by the shield checks"]}
 
+BANKVM = {"trusted": SDK_TRUST + ["contract behaviour at chain level is modelled for a fixed library of hand-assembled programs (harness/sim/gen_bankvm.go); arbitrary programs are covered by the VM engine"],
+          "assumptions": ["SDK 0.42.4 does not persist vesting delegation tracking (DelegateCoins/trackDelegation omits SetAccount): observed, reproduced by the model, not part of the repository"]}
+
 PROPS = {
+    "C01": dict(BANKVM, lean=["Shentu.Props.C01"], engines=[chain("bankvm", 96, 960, ops=100), chain("gov", 48, 480, ops=100), chain("oracle", 48, 480)]),
+    "C18": dict(BANKVM, lean=["Shentu.Props.C18"], engines=[chain("bankvm", 160, 1600, ops=100)]),
+    "C19": dict(BANKVM, lean=["Shentu.Props.C19"], engines=[chain("bankvm", 160, 1600, ops=100)]),
     "C11": dict(GOV, lean=["Shentu.Props.C11"]),
     "C12": dict(GOV, lean=["Shentu.Props.C12"]),
     "C13": dict(GOV, lean=["Shentu.Props.C13"]),
